@@ -144,6 +144,18 @@ func AddNestedConflict(w *World, id int, plugin string) string {
 	return fmt.Sprintf("nested conflict: %sNC(deriveKeysNA(map[string]bool)) and %sNC(deriveKeysNB(map[int64]bool))", PluginPrefix[plugin], PluginPrefix[plugin])
 }
 
+// AddInnerConflict: the conflict sits on the INNER calls (one keys name for
+// two map types) and, one pass later, on the outer calls as well: a rename of
+// the first pass decides the argument type of a call of the second.
+func AddInnerConflict(w *World, id int, plugin string) string {
+	mk := func(k *Ty, n int) *Call {
+		inner := &Call{Plugin: "keys", Suffix: "NI", Args: []Arg{{Param: "m", Ty: Map(k, Basic("bool"))}}, NRes: 1, ID: id + n, Pkg: ""}
+		return &Call{Plugin: plugin, Suffix: "NO", Args: []Arg{{Nested: inner, Ty: Slice(k)}}, NRes: 1, ID: id + n + 1, File: n % w.NFiles, Pkg: ""}
+	}
+	w.Calls = append(w.Calls, mk(Basic("string"), 10), mk(Basic("int64"), 20))
+	return fmt.Sprintf("inner conflict: %sNO(deriveKeysNI(map[string]bool)) and %sNO(deriveKeysNI(map[int64]bool))", PluginPrefix[plugin], PluginPrefix[plugin])
+}
+
 // sameNamedFields: one struct of package p with fields of the same-named
 // types of the two same-named imported packages (ext.T holds a slice,
 // other/ext.T is comparable), in a tape-drawn order, under one or two plugins
